@@ -33,3 +33,446 @@ structure WfTextTape (input : Bytes) (toks : List Tok) : Prop where
   scalars_increasing : (slices toks).Pairwise (fun s t => s.off input.length < t.off input.length)
 
 end Jomini.TextTape
+
+/-! ### abstract documents, fragment 1: flat `key op value` fields (C01_faithful / layout) -/
+namespace Jomini.TextTape
+
+/-- a scalar as the document model sees it: quoted or not, and its content bytes (for a quoted
+scalar: what stands between the quotes, escapes included). -/
+structure Scal where
+  quoted : Bool
+  bytes : Bytes
+deriving DecidableEq, Repr
+
+/-- the bytes of the scalar in the file. -/
+def Scal.text (s : Scal) : Bytes := if s.quoted then 34 :: (s.bytes ++ [34]) else s.bytes
+
+/-- well-formed scalar.  Quoted: the quote that ends the rendering is the first unescaped one.
+Unquoted: non-empty, no boundary byte, and the first byte is not a blank (`;`), `"` or `@`. -/
+def Scal.Valid (s : Scal) : Prop :=
+  if s.quoted then quoteClose (s.bytes ++ [34]) false = some s.bytes.length
+  else (∀ c ∈ s.bytes, isBoundary c = false) ∧
+    ∃ c r, s.bytes = c :: r ∧ isBlank c = false ∧ c ≠ 34 ∧ c ≠ 64
+
+def Op.text : Op → Bytes
+  | .eq => [61] | .lt => [60] | .le => [60, 61] | .gt => [62] | .ge => [62, 61]
+  | .ne => [33, 61] | .exact => [61, 61] | .exists_ => [63, 61]
+
+/-- `x` is empty or starts with a boundary byte (what has to follow an unquoted scalar). -/
+def StartsBoundary (x : Bytes) : Prop := x = [] ∨ ∃ c r, x = c :: r ∧ isBoundary c = true
+
+/-- a field with its layout: blanks before the key, before the operator and before the value. -/
+structure LField where
+  g0 : Bytes
+  key : Scal
+  g1 : Bytes
+  op : Op
+  g2 : Bytes
+  val : Scal
+
+def LField.render (f : LField) : Bytes :=
+  f.g0 ++ (f.key.text ++ (f.g1 ++ (f.op.text ++ (f.g2 ++ f.val.text))))
+
+/-- the document: fields, then trailing blanks `gt`. -/
+def renderFlat : List LField → Bytes → Bytes
+  | [], gt => gt
+  | f :: fs, gt => f.render ++ renderFlat fs gt
+
+/-- layout validity: gaps are blanks; an unquoted scalar is followed by nothing or a boundary byte
+(so `a ?= b` needs its blank and `;` cannot be glued to a scalar). -/
+def ValidFlat : List LField → Bytes → Prop
+  | [], gt => Blank gt
+  | f :: fs, gt =>
+    Blank f.g0 ∧ Blank f.g1 ∧ Blank f.g2 ∧ f.key.Valid ∧ f.val.Valid ∧
+    (f.key.quoted = false → StartsBoundary (f.g1 ++ f.op.text)) ∧
+    (f.val.quoted = false → StartsBoundary (renderFlat fs gt)) ∧
+    ValidFlat fs gt
+
+/-- the token of a scalar that is followed by `after` in the input. -/
+def Scal.tok (s : Scal) (after : Bytes) : Tok :=
+  if s.quoted then .quoted ⟨s.bytes.length + 1 + after.length, s.bytes⟩
+  else .unquoted ⟨s.bytes.length + after.length, s.bytes⟩
+
+def Op.toks : Op → List Tok
+  | .eq => []
+  | o => [.operator o]
+
+/-- the expected tape of a flat document (with the positions its layout implies). -/
+def tapeFlat : List LField → Bytes → List Tok
+  | [], _ => []
+  | f :: fs, gt =>
+    let after := renderFlat fs gt
+    [f.key.tok (f.g1 ++ (f.op.text ++ (f.g2 ++ (f.val.text ++ after))))] ++ f.op.toks ++
+      [f.val.tok after] ++ tapeFlat fs gt
+
+/-- forget where a scalar stands: what is left is the document's content. -/
+def Tok.erase : Tok → Tok
+  | .unquoted s => .unquoted ⟨0, s.bytes⟩
+  | .quoted s => .quoted ⟨0, s.bytes⟩
+  | .parameter s => .parameter ⟨0, s.bytes⟩
+  | .undefParameter s => .undefParameter ⟨0, s.bytes⟩
+  | .header s => .header ⟨0, s.bytes⟩
+  | t => t
+
+/-- the layout-free content tape of a flat document: keys, operators, scalar bytes with their
+quotedness, in document order. -/
+def contentFlat : List (Scal × Op × Scal) → List Tok
+  | [] => []
+  | (k, o, v) :: fs =>
+    [(k.tok []).erase] ++ o.toks ++ [(v.tok []).erase] ++ contentFlat fs
+
+def LField.content (f : LField) : Scal × Op × Scal := (f.key, f.op, f.val)
+
+end Jomini.TextTape
+
+/-! ### abstract documents, fragment 2: nested objects (any depth) with their layout -/
+namespace Jomini.TextTape
+
+mutual
+/-- a value with its layout: a scalar behind blanks `g`, or a non-empty object
+`g { g0 key g1 op value fields… gc }` (the first field is explicit: it is the one ParseOpen sees). -/
+inductive LVal
+  | scal (g : Bytes) (s : Scal)
+  | obj (g g0 : Bytes) (key : Scal) (g1 : Bytes) (op : Op) (v : LVal) (rest : LFields) (gc : Bytes)
+/-- further fields `g0 key g1 op value`. -/
+inductive LFields
+  | nil
+  | cons (g0 : Bytes) (key : Scal) (g1 : Bytes) (op : Op) (v : LVal) (rest : LFields)
+end
+
+mutual
+def renderV : LVal → Bytes
+  | .scal g s => g ++ s.text
+  | .obj g g0 k g1 o v rest gc =>
+    g ++ 123 :: (g0 ++ (k.text ++ (g1 ++ (o.text ++ (renderV v ++ (renderF rest ++ (gc ++ [125])))))))
+def renderF : LFields → Bytes
+  | .nil => []
+  | .cons g0 k g1 o v rest => g0 ++ (k.text ++ (g1 ++ (o.text ++ (renderV v ++ renderF rest))))
+end
+
+mutual
+/-- layout validity of a value followed by `after`. -/
+def ValidV : LVal → Bytes → Prop
+  | .scal g s, after => Blank g ∧ s.Valid ∧ (s.quoted = false → StartsBoundary after)
+  | .obj g g0 k g1 o v rest gc, after =>
+    Blank g ∧ Blank g0 ∧ Blank g1 ∧ Blank gc ∧ k.Valid ∧
+    (k.quoted = false → StartsBoundary (g1 ++ o.text)) ∧
+    ValidV v (renderF rest ++ (gc ++ 125 :: after)) ∧ ValidF rest (gc ++ 125 :: after)
+def ValidF : LFields → Bytes → Prop
+  | .nil, _ => True
+  | .cons g0 k g1 o v rest, after =>
+    Blank g0 ∧ Blank g1 ∧ k.Valid ∧ (k.quoted = false → StartsBoundary (g1 ++ o.text)) ∧
+    ValidV v (renderF rest ++ after) ∧ ValidF rest after
+end
+
+mutual
+/-- number of tape tokens. -/
+def cntV : LVal → Nat
+  | .scal _ _ => 1
+  | .obj _ _ _ _ o v rest _ => 2 + (1 + o.toks.length + cntV v) + cntF rest
+def cntF : LFields → Nat
+  | .nil => 0
+  | .cons _ _ _ o v rest => (1 + o.toks.length + cntV v) + cntF rest
+end
+
+mutual
+/-- the expected tape of a value whose first token gets index `base` and which is followed by
+`after` in the input. -/
+def tapeV : LVal → Nat → Bytes → List Tok
+  | .scal _ s, _, after => [s.tok after]
+  | .obj _ _ k g1 o v rest gc, base, after =>
+    let tail := renderF rest ++ (gc ++ 125 :: after)
+    [.object (base + 1 + (1 + o.toks.length + cntV v) + cntF rest) false] ++
+      ([k.tok (g1 ++ (o.text ++ (renderV v ++ tail)))] ++ o.toks ++
+        tapeV v (base + 1 + 1 + o.toks.length) tail ++
+        tapeF rest (base + 1 + (1 + o.toks.length + cntV v)) (gc ++ 125 :: after)) ++
+      [.endTok base]
+def tapeF : LFields → Nat → Bytes → List Tok
+  | .nil, _, _ => []
+  | .cons _ k g1 o v rest, base, after =>
+    [k.tok (g1 ++ (o.text ++ (renderV v ++ (renderF rest ++ after))))] ++ o.toks ++
+      tapeV v (base + 1 + o.toks.length) (renderF rest ++ after) ++
+      tapeF rest (base + (1 + o.toks.length + cntV v)) after
+end
+
+mutual
+/-- main-loop iterations the value takes. -/
+def stepsV : LVal → Nat
+  | .scal _ _ => 1
+  | .obj _ _ _ _ _ v rest _ => 3 + stepsV v + stepsF rest + 1
+def stepsF : LFields → Nat
+  | .nil => 0
+  | .cons _ _ _ _ v rest => 2 + stepsV v + stepsF rest
+end
+
+mutual
+/-- the layout-free content: keys, operators, scalars, object boundaries. -/
+inductive CVal
+  | scal (s : Scal)
+  | obj (fs : CFields)
+inductive CFields
+  | nil
+  | cons (key : Scal) (op : Op) (v : CVal) (rest : CFields)
+end
+
+mutual
+def contentV : LVal → CVal
+  | .scal _ s => .scal s
+  | .obj _ _ k _ o v rest _ => .obj (.cons k o (contentV v) (contentFs rest))
+def contentFs : LFields → CFields
+  | .nil => .nil
+  | .cons _ k _ o v rest => .cons k o (contentV v) (contentFs rest)
+end
+
+mutual
+/-- the position-free tape of a content tree whose first token gets index `base`. -/
+def ctapeV : CVal → Nat → List Tok
+  | .scal s, _ => [(s.tok []).erase]
+  | .obj fs, base => [.object (base + 1 + ccntF fs) false] ++ ctapeF fs (base + 1) ++ [.endTok base]
+def ctapeF : CFields → Nat → List Tok
+  | .nil, _ => []
+  | .cons k o v rest, base =>
+    [(k.tok []).erase] ++ o.toks ++ ctapeV v (base + 1 + o.toks.length) ++
+      ctapeF rest (base + (1 + o.toks.length + ccntV v))
+def ccntV : CVal → Nat
+  | .scal _ => 1
+  | .obj fs => 2 + ccntF fs
+def ccntF : CFields → Nat
+  | .nil => 0
+  | .cons _ o v rest => (1 + o.toks.length + ccntV v) + ccntF rest
+end
+
+end Jomini.TextTape
+
+/-! ### abstract documents, fragment 3: objects, arrays (of scalars, objects, arrays) and empty
+containers, any depth -/
+namespace Jomini.TextTape
+
+mutual
+/-- a value with its layout (`g` = blanks in front of it, `gc` = blanks in front of its `}`).
+Arrays come in two forms because the parser treats their first element differently: `arrS` starts
+with a scalar (`g0 s0`), `arrC` with a non-empty container. -/
+inductive JVal
+  | scal (g : Bytes) (s : Scal)
+  | empty (g gc : Bytes)
+  | obj (g g0 : Bytes) (key : Scal) (g1 : Bytes) (op : Op) (v : JVal) (rest : JFields) (gc : Bytes)
+  | arrS (g g0 : Bytes) (s0 : Scal) (rest : JVals) (gc : Bytes)
+  | arrC (g : Bytes) (first : JVal) (rest : JVals) (gc : Bytes)
+inductive JFields
+  | nil
+  | cons (g0 : Bytes) (key : Scal) (g1 : Bytes) (op : Op) (v : JVal) (rest : JFields)
+  /-- `key { … }`: the `=` before a `{` is optional (never on the first field of a nested container,
+  where `b { … }` is an array starting with `b`) -/
+  | consImp (g0 : Bytes) (key : Scal) (v : JVal) (rest : JFields)
+  /-- ghost `{}` in key position: leaves no trace -/
+  | ghost (g gc : Bytes) (rest : JFields)
+inductive JVals
+  | nil
+  | cons (v : JVal) (rest : JVals)
+end
+
+mutual
+def jrenderV : JVal → Bytes
+  | .scal g s => g ++ s.text
+  | .empty g gc => g ++ 123 :: (gc ++ [125])
+  | .obj g g0 k g1 o v rest gc =>
+    g ++ 123 :: (g0 ++ (k.text ++ (g1 ++ (o.text ++ (jrenderV v ++ (jrenderF rest ++ (gc ++ [125])))))))
+  | .arrS g g0 s0 rest gc => g ++ 123 :: (g0 ++ (s0.text ++ (jrenderVs rest ++ (gc ++ [125]))))
+  | .arrC g first rest gc => g ++ 123 :: (jrenderV first ++ (jrenderVs rest ++ (gc ++ [125])))
+def jrenderF : JFields → Bytes
+  | .nil => []
+  | .cons g0 k g1 o v rest => g0 ++ (k.text ++ (g1 ++ (o.text ++ (jrenderV v ++ jrenderF rest))))
+  | .consImp g0 k v rest => g0 ++ (k.text ++ (jrenderV v ++ jrenderF rest))
+  | .ghost g gc rest => g ++ 123 :: (gc ++ 125 :: jrenderF rest)
+def jrenderVs : JVals → Bytes
+  | .nil => []
+  | .cons v rest => jrenderV v ++ jrenderVs rest
+end
+
+/-- a value written with braces. -/
+def JVal.isBraced : JVal → Prop
+  | .scal .. => False
+  | _ => True
+
+/-- a non-empty container (what may stand first in an `arrC`; a leading `{}` would be dropped by
+the parser as a ghost object, the kind of the container not being known yet). -/
+def JVal.isContainer : JVal → Prop
+  | .obj .. | .arrS .. | .arrC .. => True
+  | _ => False
+
+mutual
+/-- layout validity of a value followed by `after`. -/
+def JValidV : JVal → Bytes → Prop
+  | .scal g s, after => Blank g ∧ s.Valid ∧ (s.quoted = false → StartsBoundary after)
+  | .empty g gc, _ => Blank g ∧ Blank gc
+  | .obj g g0 k g1 o v rest gc, after =>
+    Blank g ∧ Blank g0 ∧ Blank g1 ∧ Blank gc ∧ k.Valid ∧
+    (k.quoted = false → StartsBoundary (g1 ++ o.text)) ∧
+    JValidV v (jrenderF rest ++ (gc ++ 125 :: after)) ∧ JValidF rest (gc ++ 125 :: after)
+  | .arrS g g0 s0 rest gc, after =>
+    Blank g ∧ Blank g0 ∧ Blank gc ∧ s0.Valid ∧
+    (s0.quoted = false → StartsBoundary (jrenderVs rest ++ (gc ++ 125 :: after))) ∧
+    -- what follows the first scalar is not an operator (else the container would be an object)
+    (∀ d2, skipWs (jrenderVs rest ++ (gc ++ 125 :: after)) = some d2 → firstFieldPeek d2 = false) ∧
+    JValidVs rest (gc ++ 125 :: after)
+  | .arrC g first rest gc, after =>
+    Blank g ∧ Blank gc ∧ first.isContainer ∧
+    JValidV first (jrenderVs rest ++ (gc ++ 125 :: after)) ∧ JValidVs rest (gc ++ 125 :: after)
+def JValidF : JFields → Bytes → Prop
+  | .nil, _ => True
+  | .cons g0 k g1 o v rest, after =>
+    Blank g0 ∧ Blank g1 ∧ k.Valid ∧ (k.quoted = false → StartsBoundary (g1 ++ o.text)) ∧
+    JValidV v (jrenderF rest ++ after) ∧ JValidF rest after
+  | .consImp g0 k v rest, after =>
+    Blank g0 ∧ k.Valid ∧ v.isBraced ∧
+    (k.quoted = false → StartsBoundary (jrenderV v ++ (jrenderF rest ++ after))) ∧
+    JValidV v (jrenderF rest ++ after) ∧ JValidF rest after
+  | .ghost g gc rest, after => Blank g ∧ Blank gc ∧ JValidF rest after
+def JValidVs : JVals → Bytes → Prop
+  | .nil, _ => True
+  | .cons v rest, after => JValidV v (jrenderVs rest ++ after) ∧ JValidVs rest after
+end
+
+mutual
+def jcntV : JVal → Nat
+  | .scal _ _ => 1
+  | .empty _ _ => 2
+  | .obj _ _ _ _ o v rest _ => 2 + (1 + o.toks.length + jcntV v) + jcntF rest
+  | .arrS _ _ _ rest _ => 2 + 1 + jcntVs rest
+  | .arrC _ first rest _ => 2 + jcntV first + jcntVs rest
+def jcntF : JFields → Nat
+  | .nil => 0
+  | .cons _ _ _ o v rest => (1 + o.toks.length + jcntV v) + jcntF rest
+  | .consImp _ _ v rest => (1 + jcntV v) + jcntF rest
+  | .ghost _ _ rest => jcntF rest
+def jcntVs : JVals → Nat
+  | .nil => 0
+  | .cons v rest => jcntV v + jcntVs rest
+end
+
+mutual
+/-- the expected tape of a value whose first token gets index `base`, followed by `after`. -/
+def jtapeV : JVal → Nat → Bytes → List Tok
+  | .scal _ s, _, after => [s.tok after]
+  | .empty _ _, base, _ => [.array (base + 1) false, .endTok base]
+  | .obj _ _ k g1 o v rest gc, base, after =>
+    let tail := jrenderF rest ++ (gc ++ 125 :: after)
+    [.object (base + 1 + (1 + o.toks.length + jcntV v) + jcntF rest) false] ++
+      ([k.tok (g1 ++ (o.text ++ (jrenderV v ++ tail)))] ++ o.toks ++
+        jtapeV v (base + 1 + 1 + o.toks.length) tail ++
+        jtapeF rest (base + 1 + (1 + o.toks.length + jcntV v)) (gc ++ 125 :: after)) ++
+      [.endTok base]
+  | .arrS _ _ s0 rest gc, base, after =>
+    [.array (base + 1 + 1 + jcntVs rest) false] ++
+      ([s0.tok (jrenderVs rest ++ (gc ++ 125 :: after))] ++
+        jtapeVs rest (base + 1 + 1) (gc ++ 125 :: after)) ++
+      [.endTok base]
+  | .arrC _ first rest gc, base, after =>
+    [.array (base + 1 + jcntV first + jcntVs rest) false] ++
+      (jtapeV first (base + 1) (jrenderVs rest ++ (gc ++ 125 :: after)) ++
+        jtapeVs rest (base + 1 + jcntV first) (gc ++ 125 :: after)) ++
+      [.endTok base]
+def jtapeF : JFields → Nat → Bytes → List Tok
+  | .nil, _, _ => []
+  | .cons _ k g1 o v rest, base, after =>
+    [k.tok (g1 ++ (o.text ++ (jrenderV v ++ (jrenderF rest ++ after))))] ++ o.toks ++
+      jtapeV v (base + 1 + o.toks.length) (jrenderF rest ++ after) ++
+      jtapeF rest (base + (1 + o.toks.length + jcntV v)) after
+  | .consImp _ k v rest, base, after =>
+    [k.tok (jrenderV v ++ (jrenderF rest ++ after))] ++
+      jtapeV v (base + 1) (jrenderF rest ++ after) ++ jtapeF rest (base + (1 + jcntV v)) after
+  | .ghost _ _ rest, base, after => jtapeF rest base after
+def jtapeVs : JVals → Nat → Bytes → List Tok
+  | .nil, _, _ => []
+  | .cons v rest, base, after =>
+    jtapeV v base (jrenderVs rest ++ after) ++ jtapeVs rest (base + jcntV v) after
+end
+
+mutual
+/-- main-loop iterations. -/
+def jstepsV : JVal → Nat
+  | .scal _ _ => 1
+  | .empty _ _ => 2
+  | .obj _ _ _ _ _ v rest _ => 3 + jstepsV v + jstepsF rest + 1
+  | .arrS _ _ _ rest _ => 2 + jstepsVs rest + 1
+  | .arrC _ first rest _ => 2 + jstepsV first + jstepsVs rest + 1
+def jstepsF : JFields → Nat
+  | .nil => 0
+  | .cons _ _ _ _ v rest => 2 + jstepsV v + jstepsF rest
+  | .consImp _ _ v rest => 2 + jstepsV v + jstepsF rest
+  | .ghost _ _ rest => 1 + jstepsF rest
+def jstepsVs : JVals → Nat
+  | .nil => 0
+  | .cons v rest => jstepsV v + jstepsVs rest
+end
+
+end Jomini.TextTape
+
+/-! ### fragment 3: layout-free content -/
+namespace Jomini.TextTape
+
+mutual
+/-- the document model of fragment 3: scalars, empty containers, objects, arrays. -/
+inductive KVal
+  | scal (s : Scal)
+  | empty
+  | obj (fs : KFields)
+  | arr (vs : KVals)
+inductive KFields
+  | nil
+  | cons (key : Scal) (op : Op) (v : KVal) (rest : KFields)
+inductive KVals
+  | nil
+  | cons (v : KVal) (rest : KVals)
+end
+
+mutual
+def kcontentV : JVal → KVal
+  | .scal _ s => .scal s
+  | .empty _ _ => .empty
+  | .obj _ _ k _ o v rest _ => .obj (.cons k o (kcontentV v) (kcontentF rest))
+  | .arrS _ _ s0 rest _ => .arr (.cons (.scal s0) (kcontentVs rest))
+  | .arrC _ first rest _ => .arr (.cons (kcontentV first) (kcontentVs rest))
+def kcontentF : JFields → KFields
+  | .nil => .nil
+  | .cons _ k _ o v rest => .cons k o (kcontentV v) (kcontentF rest)
+  | .consImp _ k v rest => .cons k .eq (kcontentV v) (kcontentF rest)
+  | .ghost _ _ rest => kcontentF rest
+def kcontentVs : JVals → KVals
+  | .nil => .nil
+  | .cons v rest => .cons (kcontentV v) (kcontentVs rest)
+end
+
+mutual
+def kcntV : KVal → Nat
+  | .scal _ => 1
+  | .empty => 2
+  | .obj fs => 2 + kcntF fs
+  | .arr vs => 2 + kcntVs vs
+def kcntF : KFields → Nat
+  | .nil => 0
+  | .cons _ o v rest => (1 + o.toks.length + kcntV v) + kcntF rest
+def kcntVs : KVals → Nat
+  | .nil => 0
+  | .cons v rest => kcntV v + kcntVs rest
+end
+
+mutual
+/-- the position-free tape of a content tree whose first token gets index `base`: keys,
+operators, scalar bytes (quoted vs unquoted), container kinds and their `end` links. -/
+def ktapeV : KVal → Nat → List Tok
+  | .scal s, _ => [(s.tok []).erase]
+  | .empty, base => [.array (base + 1) false, .endTok base]
+  | .obj fs, base => [.object (base + 1 + kcntF fs) false] ++ ktapeF fs (base + 1) ++ [.endTok base]
+  | .arr vs, base => [.array (base + 1 + kcntVs vs) false] ++ ktapeVs vs (base + 1) ++ [.endTok base]
+def ktapeF : KFields → Nat → List Tok
+  | .nil, _ => []
+  | .cons k o v rest, base =>
+    [(k.tok []).erase] ++ o.toks ++ ktapeV v (base + 1 + o.toks.length) ++
+      ktapeF rest (base + (1 + o.toks.length + kcntV v))
+def ktapeVs : KVals → Nat → List Tok
+  | .nil, _ => []
+  | .cons v rest, base => ktapeV v base ++ ktapeVs rest (base + kcntV v)
+end
+
+end Jomini.TextTape
